@@ -6,6 +6,7 @@
 #include <cocls/future.h>
 #include <cocls/mutex.h>
 #include <cocls/queue.h>
+#include <cocls/generator.h>
 #include <algorithm>
 #include <deque>
 #include <memory>
@@ -47,7 +48,7 @@ struct Model {
         auto take_from_ready = [&](int y) { for (size_t bi = ready.size(); bi-- > 0;) { auto &b = ready[bi]; auto it = std::find(b.begin(), b.end(), y); if (it != b.end()) { b.erase(it); if (b.empty()) ready.erase(ready.begin() + bi); return; } } };
         if (one_of.count(x)) { one_of.clear(); take_from_ready(x); ok = true; }          // the member of an awaited suspend point that is transferred to directly
         else if (direct.count(x)) { direct.erase(x); take_from_ready(x); ok = true; }
-        if (!ok && !one_of.empty()) one_of.clear();
+        if (!ok && !one_of.empty()) dsim::fail("C05.awaited_suspend_point_not_transferred", "coroutine %d runs although the running coroutine had just co_awaited a suspend point carrying coroutine %d: control must switch to a carried coroutine first", x, *one_of.begin());
         if (!ok) {
             // inside a nested start() the ready queue may only be reached through a transfer chain (pause, awaited suspend point):
             // once a segment ended by suspending on something pending, control is back in the starter and nothing else may start
@@ -198,6 +199,22 @@ cocls::async<void> coro(int id) {
     M.seg_end(id, M.parent[id] >= 0);     // a finished coroutine transfers into the coroutine awaiting it, else the chain ends
 }
 
+
+// a coroutine that is NOT run under an installed queue: the body of a generator stepped synchronously from ordinary code.
+// It co_awaits the suspend point of a promise resolution (this is where suspend_point::await_suspend has to install the queue itself).
+cocls::generator<long> bare_body(int gid, int fa) {
+    M.seg_begin(gid);
+    if (!M.fut_resolved[fa]) {
+        M.fut_resolved[fa] = true;
+        Readied rd; rd.m = M.fut_waiters[fa]; M.fut_waiters[fa].clear();
+        bool susp = await_effect(gid, rd);
+        if (susp) M.seg_end(gid, true);
+        co_await proms[fa]();
+        if (susp) M.seg_begin(gid);
+    }
+    M.state[gid] = Model::DONE;
+    M.seg_end(gid, false);
+}
 void outer_returned(const char *what) {
     if (cocls::coro_queue::is_active()) dsim::fail("C05.S6_queue_active", "%s returned to ordinary code but the coroutine queue is still installed", what);
     if (!M.running.empty()) dsim::fail("C05.S6_not_drained", "%s returned while coroutine %d is marked running", what, M.running.back());
@@ -208,7 +225,8 @@ void outer_returned(const char *what) {
 void single_thread() {
     Model local_model; MP = &local_model;
     M.reset();
-    M.ncoro = 1 + dsim::choose(MAXC);
+    M.ncoro = 1 + dsim::choose(MAXC - 1);      // id MAXC-1 is reserved for the generator-hosted coroutine
+    int bare_fut = dsim::choose(NF + 2);        // < NF: a generator body stepped from ordinary code resolves that future and awaits the suspend point
     for (int i = 0; i < M.ncoro; i++) { M.sc[i].n = dsim::choose(MAXSTEP + 1); for (int k = 0; k < M.sc[i].n; k++) { M.sc[i].st[k].op = dsim::choose(NOPS); int op = M.sc[i].st[k].op; M.sc[i].st[k].arg = (op == DETACH_CHILD || op == AWAIT_CHILD || op == START_CHILD) ? i + 1 + (int)dsim::choose(3) : (int)dsim::choose(NF); } }
     dsim::plan_note("single-thread n=%d", M.ncoro);
     for (int i = 0; i < M.ncoro; i++) { dsim::plan_note(" C%d:", i); for (int k = 0; k < M.sc[i].n; k++) dsim::plan_note("%c%d", "prRfdasmMuoG"[M.sc[i].st[k].op], M.sc[i].st[k].arg); }
@@ -221,6 +239,12 @@ void single_thread() {
         M.spawned[i] = true; M.direct.insert(i);
         coro(i).detach();
         outer_returned("detach() from ordinary code");
+    }
+    if (bare_fut < NF && !M.fut_resolved[bare_fut]) {
+        int gid = MAXC - 1;
+        M.direct.insert(gid);
+        { auto g = bare_body(gid, bare_fut); bool more = g.next(); if (more) dsim::fail("C05.harness", "generator yielded"); }
+        outer_returned("generator step from ordinary code");
     }
     for (int f = 0; f < NF; f++) if (!M.fut_resolved[f]) {
         M.fut_resolved[f] = true; for (int w : M.fut_waiters[f]) M.direct.insert(w); M.fut_waiters[f].clear();
